@@ -159,7 +159,7 @@ F('agg_get_origin', A + 'get_origin', cls='agg', mangled=r'_ZNK3ada14url_aggrega
 
 # ---- ada::url members (twins of the aggregator's)
 U = 'ada::url::'
-for _m in ['parse_ipv4', 'parse_ipv6', 'parse_opaque_host', 'parse_host', 'parse_port', 'parse_scheme', 'get_href_size', 'get_components', 'set_port', 'set_username',
+for _m in ['parse_ipv4', 'parse_ipv6', 'parse_opaque_host', 'parse_host', 'parse_scheme', 'get_href_size', 'get_components', 'set_port', 'set_username',
            'set_password', 'set_hash', 'set_search', 'set_pathname', 'set_protocol', 'cannot_have_credentials_or_port', 'has_credentials', 'get_pathname', 'get_href',
            'get_host', 'get_hostname', 'get_port', 'get_search', 'get_hash', 'get_username', 'get_password', 'get_protocol', 'update_base_port', 'clear_port',
            'update_base_hostname', 'has_empty_hostname', 'has_hostname', 'has_valid_domain', 'set_scheme', 'copy_scheme', 'set_protocol_as_file', 'has_port']:
@@ -168,6 +168,8 @@ F('url_parse_scheme_1', U + 'parse_scheme', cls='url', mangled=r'_ZN3ada3url12pa
 F('url_parse_scheme_0', U + 'parse_scheme', cls='url', mangled=r'_ZN3ada3url12parse_schemeILb0EEE.*', targs='false', tdefault=True)
 F('url_set_host_or_hostname_0', U + 'set_host_or_hostname', cls='url', mangled=r'_ZN3ada3url20set_host_or_hostnameILb0EEE.*', targs='false')
 F('url_set_host_or_hostname_1', U + 'set_host_or_hostname', cls='url', mangled=r'_ZN3ada3url20set_host_or_hostnameILb1EEE.*', targs='true')
+F('url_parse_port', U + 'parse_port', cls='url', mangled=r'_ZN3ada3url10parse_portESt17basic_string_viewIcSt11char_traitsIcEEb')
+F('url_parse_port1', U + 'parse_port', cls='url', mangled=r'_ZN3ada3url10parse_portESt17basic_string_viewIcSt11char_traitsIcEE')
 F('usp_sort', 'ada::url_search_params::sort', cls='usp')
 for _m in ['reset', 'initialize', 'append', 'size']:
     F('usp_' + _m, 'ada::url_search_params::' + _m, cls='usp')
